@@ -264,6 +264,7 @@ static RunOutcome check_format(const std::string &prop, const Plan &P) {
 
 // ------------------------------------------------------------------ isolation: evaluate one crash image / altered image in a forked child,
 // so that a crash, sanitizer abort or wall-clock hang inside the library is one more outcome and the enumeration goes on.
+extern "C" int __llvm_profile_write_file(void) __attribute__((weak));
 double g_enumeration_deadline = 0;
 static bool past_enumeration_deadline() { if (g_enumeration_deadline <= 0) return false; struct timespec ts; clock_gettime(CLOCK_MONOTONIC, &ts); return ts.tv_sec + ts.tv_nsec / 1e9 > g_enumeration_deadline; }
 struct IsoOut { Violations v; RunOutcome o; bool died = false; std::string death_cls, death_detail; int death_op = -1; };
@@ -304,6 +305,7 @@ static IsoOut isolate(const std::function<void(Violations &, RunOutcome &)> &fn)
         s += "E\t" + std::to_string(sim::edges_covered()) + "\n";
         for (uint64_t u : lo.unit_hashes) s += "U\t" + std::to_string(u) + "\n";
         size_t off = 0; while (off < s.size()) { ssize_t w = write(fd[1], s.data() + off, s.size() - off); if (w <= 0) break; off += (size_t) w; }
+        if (__llvm_profile_write_file) __llvm_profile_write_file();     // cov variant only (weak)
         _exit(0);
     }
     close(fd[1]);
